@@ -54,6 +54,11 @@ def activityTypesGo : List String :=
    "Undo", "Update", "View"]
 def actorTypesGo : List String := ["Application", "Group", "Organization", "Person", "Service"]
 
+/-- the type-name tests in front of the activity and actor comparisons of ItemsEqual: the generic name
+(compared exactly) or a member of the family list (compared ignoring case) -/
+def isActivityDispatch (wt : Str) : Bool := wt == Flatten.ascii "Activity" || Flatten.typeIn activityTypesGo wt
+def isActorDispatch (wt : Str) : Bool := wt == Flatten.ascii "Actor" || Flatten.typeIn actorTypesGo wt
+
 /-- `itemsNeedSwapping` -/
 def needSwap (a b : Item) : Bool :=
   (isIRI a && !isIRI b) ||
@@ -194,13 +199,13 @@ def collectionEquals (T : List EqualsRow) (rec : Rec) (c : Fields) (ck : Kind) (
 /-- the family step of ItemsEqual for two objects of the same struct kind `k` (`none`: outside the model) -/
 def familyEquals (T : List EqualsRow) (rec : Rec) (k : Kind) (p : Bool) (o w : Fields) (r0 : Option Bool) : Option Bool :=
   let wt := Flatten.strOf w "Type"
-  if Flatten.typeIn activityTypesGo wt then
+  if isActivityDispatch wt then
     if k == .activity then
       -- Activity.Equals: IntransitiveActivity.Equals (Object.Equals + its rows), then the object row
       andO (andO (objectEquals T rec o (.node k p w)) (fun _ => rowsHold T rec "IntransitiveActivity" o w))
         (fun _ => rowsHold T rec "Activity" o w)
     else r0
-  else if Flatten.typeIn actorTypesGo wt then
+  else if isActorDispatch wt then
     if k == .actor then andO (objectEquals T rec o (.node k p w)) (fun _ => rowsHold T rec "Actor" o w)
     else r0
   else if isCollKind k then
